@@ -285,8 +285,8 @@ def check_ethtx(pid, tier, seed, replay):
         v.cov["samples"] = [json.loads(x) for x in first[2:5]]
         if pid == "C06":
             v.cov["classes"].update(c06_lane_vectors(v, w, tier, pid))
-        if pid == "C05":
-            big_charge(v, pid, w, tier, seed)
+        if pid in ("C04", "C05"):
+            big_charge(v, pid, w, tier, seed)   # C05: the charge; C04: supply unchanged, receiver gains exactly the value moved
         if pid in ("C05", "C06"):
             import checks_mempool
             v.cov["classes"].update(checks_mempool.mempool_binding(v, pid, w, tier, seed))
